@@ -29,7 +29,8 @@ pub fn bre(e: &BitReaderError) -> String {
 /// diagnostic mode (`VERIF_FULL_ERR=1`): SPS / PPS / slice errors are printed in full instead of by class
 pub fn err_show<E: std::fmt::Debug>(e: &E) -> String { if std::env::var("VERIF_FULL_ERR").is_ok() { format!("Err {:?}", e) } else { err_class(e).to_string() } }
 /// level_idc plus `b` for Level 1b (the only two enum values sharing an idc)
-pub fn level_str(l: h264_reader::nal::sps::Level) -> String { format!("{}{}", l.level_idc(), if l == h264_reader::nal::sps::Level::L1_b { "b" } else { "" }) }
+/// level_idc, `b` for Level 1b, `?` when the value is carried as `Unknown(idc)` (not a level of Table A-1)
+pub fn level_str(l: h264_reader::nal::sps::Level) -> String { format!("{}{}", l.level_idc(), if l == h264_reader::nal::sps::Level::L1_b { "b" } else if matches!(l, h264_reader::nal::sps::Level::Unknown(_)) { "?" } else { "" }) }
 pub fn err_class<E: std::fmt::Debug>(e: &E) -> &'static str { if format!("{:?}", e).contains("WouldBlock") { "WouldBlock" } else { "Err" } }
 
 #[derive(Default)]
@@ -132,7 +133,7 @@ impl Runner {
             "hdr" => { let b: u8 = toks[1].parse().unwrap(); match NalHeader::new(b) { Ok(h) => format!("ok {} {} back={}", h.nal_ref_idc(), h.nal_unit_type().id(), u8::from(h)), Err(_) => "err".into() } }
             "unittype" => { let b: u8 = toks[1].parse().unwrap(); match h264_reader::nal::UnitType::for_id(b) { Ok(u) => format!("ok {}", u.id()), Err(_) => "err".into() } }
             "profile" => { let b: u8 = toks[1].parse().unwrap(); use h264_reader::nal::sps::{Profile, ProfileIdc}; format!("{}", Profile::from_profile_idc(ProfileIdc::from(b)).profile_idc()) }
-            "level" => { let f: u8 = toks[1].parse().unwrap(); let l: u8 = toks[2].parse().unwrap(); use h264_reader::nal::sps::{Level, ConstraintFlags}; let lv = Level::from_constraint_flags_and_level_idc(ConstraintFlags::from(f), l); format!("{} {}", lv.level_idc(), if lv == Level::L1_b { "1b" } else { "-" }) }
+            "level" => { let f: u8 = toks[1].parse().unwrap(); let l: u8 = toks[2].parse().unwrap(); use h264_reader::nal::sps::{Level, ConstraintFlags}; let lv = Level::from_constraint_flags_and_level_idc(ConstraintFlags::from(f), l); format!("{} {} {}", lv.level_idc(), if lv == Level::L1_b { "1b" } else { "-" }, if matches!(lv, Level::Unknown(_)) { "U" } else { "K" }) }
             "flags" => { let f: u8 = toks[1].parse().unwrap(); use h264_reader::nal::sps::ConstraintFlags; let c = ConstraintFlags::from(f); format!("{} {}{}{}{}{}{} {}", u8::from(c), c.flag0() as u8, c.flag1() as u8, c.flag2() as u8, c.flag3() as u8, c.flag4() as u8, c.flag5() as u8, c.reserved_zero_two_bits()) }
             "spsid" => { let v: u32 = toks[1].parse().unwrap(); match h264_reader::nal::sps::SeqParamSetId::from_u32(v) { Ok(i) => format!("ok {}", i.id()), Err(_) => "err".into() } }
             "ppsid" => { let v: u32 = toks[1].parse().unwrap(); match h264_reader::nal::pps::PicParamSetId::from_u32(v) { Ok(i) => format!("ok {}", i.id()), Err(_) => "err".into() } }
